@@ -113,7 +113,7 @@ def stmt(s, inc_names, indent=""):
     if k == "asciic":
         parts = [('"' + "".join(chr(b) for b in c["q"]) + '"') if "q" in c else ('"' + "".join(chr(b) for b in c["u"]) + '"') if "u" in c
                  else ("<" + expr(c["e"]) + ">") for c in s["cs"]]
-        return [indent + "\t.ascii " + " ".join(parts)]
+        return [indent + ("\t.asciz " if s.get("z") else "\t.ascii ") + " ".join(parts)]
     if k == "label":
         return [indent + s["n"] + ("::" if s["x"] else ":")]
     if k == "const":
